@@ -285,6 +285,37 @@ func mutations() []mutation {
 			})
 		}
 	}
+	// neighbouring elements with the SAME identity (legal: the order is non-decreasing), one of
+	// them with a value that is not the valid one for that identity: at the second position, at
+	// the first, and as a third element behind two good ones
+	for _, v := range vals {
+		v := v
+		add("equal-neighbour[1]="+v.n, func(m *g.Msg) {
+			if len(m.Items) > 1 {
+				m.Items[1].Ident = m.Items[0].Ident
+				m.Items[1].Val = v.v(m, m.Items[1].Ident)
+			}
+		})
+		add("equal-neighbour[0]="+v.n, func(m *g.Msg) {
+			if len(m.Items) > 1 {
+				m.Items[1].Ident = m.Items[0].Ident
+				m.Items[1].Val = goodVal(m, m.Items[1].Ident)
+				m.Items[0].Val = v.v(m, m.Items[0].Ident)
+			}
+		})
+		add("equal-neighbour[2]="+v.n, func(m *g.Msg) {
+			if len(m.Items) > 1 {
+				id := m.Items[1].Ident
+				m.Items = append(m.Items, g.Item{Ident: id, Val: v.v(m, id)})
+			}
+		})
+	}
+	add("equal-neighbour[2]=good", func(m *g.Msg) {
+		if len(m.Items) > 1 {
+			id := m.Items[1].Ident
+			m.Items = append(m.Items, g.Item{Ident: id, Val: goodVal(m, id)})
+		}
+	})
 	add("identity[0]=other", func(m *g.Msg) {
 		if len(m.Items) > 0 {
 			m.Items[0].Ident = "a0"
@@ -1025,6 +1056,19 @@ func flavourMutations(fl string) []mutation {
 	add("identity-repeated-resigned", func(m *g.Msg) {
 		if len(m.Items) > 1 {
 			m.Items[1] = m.Items[0]
+		}
+	})
+	add("equal-neighbour[1]=junk-resigned", func(m *g.Msg) {
+		if len(m.Items) > 1 {
+			m.Items[1].Ident = m.Items[0].Ident
+			m.Items[1].Val = g.Val{Kind: "junk", Ident: m.Items[1].Ident, Tag: 1}
+		}
+	})
+	add("equal-neighbour[1]=other-eon-key-resigned", func(m *g.Msg) {
+		if len(m.Items) > 1 {
+			m.Items[1].Ident = m.Items[0].Ident
+			m.Items[1].Val = goodVal(m, m.Items[1].Ident)
+			m.Items[1].Val.Set = 1
 		}
 	})
 	add("eon=2", func(m *g.Msg) { m.Eon = 2 })
